@@ -160,11 +160,56 @@ def task_thermo_with_velocity_scaling(ctx):
     ctx.assume_note("scale_freq > 0 is a precondition of run (modulo by it)")
 
 
-def task_thermo_with_energy_shift(ctx):
-    """O5 with control_energy_shift=True."""
-    from contracts import C11_cadence as C11
+def replay_energy_shift(model):
+    """real AM1 H2 NVE run with control_energy_shift=True (dt = 1 fs: the shift to compensate exceeds the kinetic energy at the
+    turning points, where the velocities are zeroed): every written Ek / T is recomputed from the velocities written for
+    the same label."""
+    import os, tempfile, shutil
+    import torch, h5py
+    from seqm.seqm_functions.constants import Constants
+    from seqm.Molecule import Molecule
+    from seqm.MolecularDynamics import Molecular_Dynamics_Basic
 
-    C11._run_config(ctx, True, (False, True, False), False, True, False, run_kwargs={"control_energy_shift": True})
+    torch.set_default_dtype(torch.float64)
+    torch.manual_seed(3)
+    params = {"method": "AM1", "scf_eps": 1e-8, "scf_converger": [1], "sp2": [False, 1e-5], "elements": [0, 1, 8], "learned": [], "pair_outer_cutoff": 1e10, "eig": True}
+    d = tempfile.mkdtemp(prefix="pyvc_c08_")
+    try:
+        mol = Molecule(Constants(), params, torch.tensor([[[0.0, 0, 0], [0.80, 0, 0]]]), torch.tensor([[1, 1]]))
+        md = Molecular_Dynamics_Basic(params, timestep=1.0, Temp=300.0, output={"molid": [0], "prefix": os.path.join(d, "md"), "print every": 0, "checkpoint every": 0, "xyz": 0,
+                                                                             "h5": {"data": 1, "coordinates": 0, "velocities": 1, "forces": 0}})
+        md.run(mol, 40, control_energy_shift=True)
+        with h5py.File(os.path.join(d, "md.0.h5"), "r") as f:
+            ek_w = torch.tensor(f["data/thermo/Ek"][...]).reshape(-1)
+            t_w = torch.tensor(f["data/thermo/T"][...]).reshape(-1)
+            steps_d = [int(x) for x in f["data/steps"][...]]
+            vel = torch.tensor(f["velocities/values"][...])
+            steps_v = [int(x) for x in f["velocities/steps"][...]]
+        worst, rows = 0.0, []
+        for r, lab in enumerate(steps_d):
+            if lab not in steps_v or lab == 0:
+                continue
+            mol.velocities = vel[steps_v.index(lab)].reshape(1, 2, 3)
+            ek = float(md._kinetic_energy(mol)[0])
+            tt = float(md._calc_temperature(md._kinetic_energy(mol))[0])
+            err = max(abs(ek - float(ek_w[r])), abs(tt - float(t_w[r])) * 1e-4)
+            if err > 1e-9:
+                rows.append({"label": lab, "written_Ek": float(ek_w[r]), "Ek_of_written_velocities": ek, "written_T": float(t_w[r]), "T_of_written_velocities": tt})
+            worst = max(worst, err)
+        return {"reproduced": bool(worst > 1e-9), "input": "AM1 H2 (0.80 A), dt 1 fs, 40 steps, control_energy_shift=True, data and velocities every step", "max_abs_error": worst, "rows": rows[:6]}
+    finally:
+        shutil.rmtree(d, ignore_errors=True)
+
+
+def task_thermo_with_energy_shift(ctx):
+    """O5 with control_energy_shift=True.  The kinetic energy is interpreted here (the contract proved in task `kinetic`,
+    KES/2 m |v|^2) so that the branch `alpha[~isfinite(alpha)] = 0` is decided: isfinite is the definedness condition of the
+    expression (divisor Ek != 0, radicand (Ek - Eshift)/Ek >= 0)."""
+    from contracts import C11_cadence as C11
+    from contracts.C07_differentiability import _quiet
+
+    C11._run_config(ctx, True, (False, True, False), False, True, False, run_kwargs={"control_energy_shift": True}, ek_spec=True,
+                    extra_pre=[real("KES_half") > 0, real("mass") > 0], replay=lambda m: _quiet(replay_energy_shift))
 
 
 def task_thermo_with_com_removal(ctx):
